@@ -78,6 +78,9 @@ class NgramTokenizer(Tokenizer):
         pos = start_pos
 
         if mode == "query":
+            # Text shorter than the smallest gram has no grams in the index
+            if inlen < self.min:
+                return
             size = min(self.max, inlen)
             for start in xrange(0, inlen - size + 1):
                 end = start + size
